@@ -12,6 +12,7 @@ package verifkit
 // written out in DESIGN.md Appendix C (and mirrored by coq/Env).
 
 import (
+	"runtime"
 	"context"
 	"fmt"
 	"io"
@@ -99,6 +100,20 @@ type Entry struct {
 	TStart int64  `json:"t_start"`
 	TEnd   int64  `json:"t_end"`
 	Mut    bool   `json:"mut"` // mutating statement
+	G      int64  `json:"g,omitempty"` // goroutine that issued the call (coordination calls only)
+}
+
+// Gid returns the id of the calling goroutine (harness-only: used to attribute
+// coordination calls to the concurrent loops of one process).
+func Gid() int64 {
+	var buf [64]byte
+	n := runtime.Stack(buf[:], false)
+	f := strings.Fields(string(buf[:n]))
+	if len(f) < 2 {
+		return 0
+	}
+	id, _ := strconv.ParseInt(f[1], 10, 64)
+	return id
 }
 
 // Fault describes what happens to the nth (0-based) matching statement.
